@@ -19,6 +19,7 @@ package main
 
 import (
 	"bytes"
+	"context"
 	"fmt"
 	"net"
 	"os"
@@ -1228,6 +1229,216 @@ func playerListStress(o *hx.Out) {
 	}
 }
 
+// ------------------------------------------------------------------ keep-alive component (channels + timers + lists)
+
+type kaClient struct {
+	id   int
+	ids  chan int64 // keep-alive ids sent to this client (filled by the Run goroutine, never blocks)
+	disc atomic.Int32
+}
+
+func (c *kaClient) SendKeepAlive(id int64) {
+	select {
+	case c.ids <- id:
+	default:
+	}
+}
+func (c *kaClient) SendDisconnect(chat.Message) { c.disc.Add(1) }
+
+// ClientJoin / ClientTick / ClientLeft from many goroutines while the Run goroutine pings, with the ping timer fired
+// by the harness; every client answers each keep-alive it receives (the protocol), some leave early, some are kicked
+func keepAliveStress(o *hx.Out) {
+	for round, N := 0, o.N(12, 10); round < N; round++ {
+		G := 8 + o.R.Intn(9)
+		k := server.NewKeepAlive()
+		var delays atomic.Int64
+		var badDelay atomic.Value
+		k.AddPlayerDelayUpdateHandler(func(c server.KeepAliveClient, d time.Duration) { // registered BEFORE Run, as documented
+			delays.Add(1)
+			if d < 0 || c == nil {
+				badDelay.Store(fmt.Sprintf("delay handler called with client %v delay %v", c, d))
+			}
+		})
+		ctx, cancel := context.WithCancel(context.Background())
+		runDone := make(chan string, 1)
+		go func() {
+			defer func() {
+				if r := recover(); r != nil {
+					runDone <- fmt.Sprint("panic in Run: ", r)
+					return
+				}
+				runDone <- ""
+			}()
+			k.Run(ctx)
+		}()
+		var wg sync.WaitGroup
+		fails := make([]string, G)
+		var answered atomic.Int64
+		allIDs := make([][]int64, G)
+		stopFire := make(chan struct{})
+		for g := 0; g < G; g++ {
+			g := g
+			r := o.R.Fork()
+			want := 1 + r.Intn(5)
+			wg.Add(1)
+			go func() {
+				defer wg.Done()
+				c := &kaClient{id: g, ids: make(chan int64, 64)}
+				jitter(r)
+				k.ClientJoin(c)
+				for n := 0; n < want; n++ {
+					select {
+					case id := <-c.ids:
+						allIDs[g] = append(allIDs[g], id)
+						jitter(r)
+						k.ClientTick(c)
+						answered.Add(1)
+					case <-time.After(10 * time.Second):
+						fails[g] = fmt.Sprintf("client %d: no keep-alive within 10 s although the ping timer keeps firing (got %d of %d)", g, n, want)
+						k.ClientLeft(c)
+						return
+					}
+				}
+				jitter(r)
+				k.ClientLeft(c)
+			}()
+		}
+		go func() { // the ticker: 15 s in production
+			r := o.R.Fork()
+			for {
+				select {
+				case <-stopFire:
+					return
+				default:
+				}
+				server.VerifKeepAliveFire(k, false)
+				if r.Intn(3) == 0 {
+					runtime.Gosched()
+				} else {
+					time.Sleep(time.Duration(20+r.Intn(200)) * time.Microsecond)
+				}
+			}
+		}()
+		fin := make(chan struct{})
+		go func() { wg.Wait(); close(fin) }()
+		blocked := false
+		select {
+		case <-fin:
+		case <-time.After(40 * time.Second):
+			blocked = true
+		}
+		close(stopFire)
+		o.Eval("keepalive", true, fmt.Sprintf("keepalive round %d clients=%d", round, G))
+		if blocked {
+			o.Fail("C20.keepalive.blocked", "round %d: ClientJoin/ClientTick/ClientLeft still blocked after 40 s (%d clients)", round, G)
+			cancel()
+			continue
+		}
+		cancel()
+		select {
+		case msg := <-runDone:
+			if msg != "" {
+				o.Fail("C20.keepalive.panic", "round %d: %s", round, msg)
+				continue
+			}
+		case <-time.After(5 * time.Second):
+			o.Fail("C20.keepalive.blocked", "round %d: Run did not return after its context was cancelled", round)
+			continue
+		}
+		seen := map[int64]int{}
+		for g := 0; g < G; g++ {
+			if fails[g] != "" {
+				o.Fail("C20.keepalive.lost", "round %d: %s", round, fails[g])
+			}
+			for i, id := range allIDs[g] {
+				if i > 0 && id <= allIDs[g][i-1] {
+					o.Fail("C20.keepalive.order", "round %d client %d: keep-alive ids not increasing: %v", round, g, allIDs[g])
+					break
+				}
+				if prev, dup := seen[id]; dup {
+					o.Fail("C20.keepalive.duplicate", "round %d: keep-alive id %d sent to clients %d and %d", round, id, prev, g)
+				}
+				seen[id] = g
+			}
+		}
+		if s, _ := badDelay.Load().(string); s != "" {
+			o.Fail("C20.keepalive.delay", "round %d: %s", round, s)
+		}
+		if delays.Load() != answered.Load() {
+			o.Fail("C20.keepalive.delay", "round %d: %d answers but %d delay updates", round, answered.Load(), delays.Load())
+		}
+		if a, b, c := server.VerifKeepAliveSizes(k); a != 0 || b != 0 || c != 0 {
+			o.Fail("C20.keepalive.leak", "round %d: after every client left: index=%d pingList=%d waitList=%d", round, a, b, c)
+		}
+	}
+}
+
+// packets built by pk.Marshal concurrently stay what they were when the call returned (a builder taken from a shared
+// pool must not leak its buffer into the returned packet)
+func marshalStress(o *hx.Out) {
+	G := 16
+	iters := o.N(150, 10)
+	type kept struct {
+		p    pk.Packet
+		want []byte
+	}
+	all := make([][]kept, G)
+	var wg sync.WaitGroup
+	for g := 0; g < G; g++ {
+		g := g
+		wg.Add(1)
+		go func() {
+			defer wg.Done()
+			for it := 0; it < iters; it++ {
+				payload := pattern(g, it, 1+(g*7+it*13)%300)
+				var want bytes.Buffer
+				_, _ = pk.VarInt(int32(g*1000+it)).WriteTo(&want)
+				_, _ = pk.ByteArray(payload).WriteTo(&want)
+				p := pk.Marshal(int32(g), pk.VarInt(int32(g*1000+it)), pk.ByteArray(payload))
+				all[g] = append(all[g], kept{p, append([]byte(nil), want.Bytes()...)})
+				if it%16 == 0 {
+					runtime.Gosched()
+				}
+			}
+		}()
+	}
+	wg.Wait()
+	for g := 0; g < G; g++ {
+		o.Eval("pool-marshal", true, fmt.Sprintf("marshal goroutine %d, %d packets", g, iters))
+		for it, k := range all[g] {
+			if k.p.ID != int32(g) || !bytes.Equal(k.p.Data, k.want) {
+				o.Fail("C20.pool.marshal", "goroutine %d packet %d: the packet returned by Marshal changed afterwards or was built from another goroutine's data", g, it)
+				break
+			}
+		}
+	}
+}
+
+// the lazily created key of the login handler: double-checked locking on an atomic pointer
+func loginKeyStress(o *hx.Out) {
+	for round := 0; round < 2; round++ {
+		var h server.MojangLoginHandler
+		const G = 16
+		keys := make([]any, G)
+		errs := make([]error, G)
+		var wg sync.WaitGroup
+		start := make(chan struct{})
+		for g := 0; g < G; g++ {
+			g := g
+			wg.Add(1)
+			go func() { defer wg.Done(); <-start; keys[g], errs[g] = h.VerifPrivateKey() }()
+		}
+		close(start)
+		wg.Wait()
+		o.Eval("login-key", true, fmt.Sprintf("login key round %d", round))
+		for g := 0; g < G; g++ {
+			if errs[g] != nil || keys[g] != keys[0] || fmt.Sprint(keys[g]) == "<nil>" {
+				o.Fail("C20.loginkey.differs", "round %d goroutine %d: key %p vs %p err %v", round, g, keys[g], keys[0], errs[g])
+			}
+		}
+	}
+}
+
 func main() {
 	if len(os.Args) > 3 && os.Args[1] == "debug-sched" {
 		// debug-sched <kind> <cap> <n> <phases...>: repeat one schedule 200 times
@@ -1253,4 +1464,7 @@ func main() {
 	nbtStress(o)
 	connStress(o)
 	playerListStress(o)
+	keepAliveStress(o)
+	loginKeyStress(o)
+	marshalStress(o)
 }
